@@ -9,6 +9,10 @@ Fields 2-9 describe the transaction and the payer's ONG balance before it (`balU
 fields 10-18 are the VM black box as observed by the harness on the real VM (`given` = the gas the harness's oracle
 run was started with: the model recomputes it and answers `given-mismatch` when it differs, so the oracle run is
 tied to the model too). Payer = address 1, governance = 0 (its balance is printed as a delta).
+
+`U <kind> <arg> <pad> <gasPrice> <gasLimit> <balUnits> <balFrac> <payerIsSigner> <codeLen>`: endless script under the
+gas-limit underflow, executed by the harness in a child process with a time bound (see `runU`).
+The model prints `asShipped ## sound` when the two variants (recorded defect `gaslimit-underflow`) differ.
 -/
 namespace OntVerif.Driver.C05
 open OntVerif.Util OntVerif.Model.InvokeFee
@@ -25,14 +29,34 @@ def run (v : Variant) (sys : Bool) (gp gl : UInt64) (bal : Nat) (wit : Bool) (co
   let ov : Overlay Nat := ⟨fun a => if a = 1 then bal else 0, 0⟩
   let tx : Tx := ⟨gp, gl, codeLen, 1, wit⟩
   let out : ExecOutcome Nat := ⟨left, ok, ierr, ⟨fun a => if a = 1 then after else 0, nw⟩, nn⟩
-  match gasGiven env ov tx, vmRan with
-  | none, true => "given-mismatch:none"
-  | some g, false => s!"given-mismatch:{g.toNat}"
-  | some g, true => if g != given then s!"given-mismatch:{g.toNat}" else showObs (observe env tx (invoke v env ov tx out))
-  | none, false => showObs (observe env tx (invoke v env ov tx out))
+  -- the oracle fields describe the VM started with `given` gas: they are consulted only if this variant starts the VM
+  match gasGiven v env ov tx with
+  | none => if vmRan && v == .asShipped then "given-mismatch:none" else showObs (observe env tx (invoke v env ov tx out))
+  | some g =>
+    if !vmRan then s!"given-mismatch:{g.toNat}"
+    else if g != given then s!"given-mismatch:{g.toNat}"
+    else showObs (observe env tx (invoke v env ov tx out))
+
+/-- `U` line: a transaction whose script never ends, in the gas-limit-underflow situation. As shipped the VM is started
+with more gas than the gas limit (`UNBOUNDED`: executeBlock does not return in bounded time); with the guard the VM is
+not started and the result does not depend on the script. -/
+def runU (sys : Bool) (gp gl : UInt64) (bal : Nat) (wit : Bool) (codeLen : Nat) : String :=
+  let env : Env := ⟨true, sys, true, 20000, 0⟩
+  let ov : Overlay Nat := ⟨fun a => if a = 1 then bal else 0, 0⟩
+  let tx : Tx := ⟨gp, gl, codeLen, 1, wit⟩
+  let out : ExecOutcome Nat := ⟨0, false, false, ov, 0⟩
+  match gasGiven .asShipped env ov tx, gasGiven .sound env ov tx with
+  | some g, none =>
+    if g > gl then "UNBOUNDED ## " ++ showObs (observe env tx (invoke .sound env ov tx out)) else "bad-op"
+  | _, _ => "bad-op"
 
 def handle (line : String) : String :=
   match fields line with
+  | ["U", kind, _arg, _pad, gp, gl, bal, frac, wit, codeLen] =>
+    match gp.toNat?, gl.toNat?, bal.toNat?, frac.toNat?, codeLen.toNat? with
+    | some gp, some gl, some bal, some frac, some codeLen =>
+      runU (kind == "dpos") (UInt64.ofNat gp) (UInt64.ofNat gl) (bal * unit + frac) (wit == "1") codeLen
+    | _, _, _, _, _ => "bad-op"
   | ["T", kind, _arg, _pad, gp, gl, bal, frac, wit, codeLen, vm, given, left, ok, ierr, after, nw, nn] =>
     match gp.toNat?, gl.toNat?, bal.toNat?, frac.toNat?, codeLen.toNat?, given.toNat?, left.toNat?, after.toNat?, nw.toNat?, nn.toNat? with
     | some gp, some gl, some bal, some frac, some codeLen, some given, some left, some after, some nw, some nn =>
